@@ -42,6 +42,7 @@ def tasks(tier, seed):
     for ty in TYPES:
         t += [{"sub": "containers", "layer": "Unit", "ty": ty, "shard": i, "nshard": 3} for i in range(3)]
     t += [{"sub": "random", "ty": ty, "shard": i} for i, ty in enumerate(TYPES)]
+    t += [{"sub": "xproc", "shard": 0}]
     t += [{"sub": "pi", "shard": i} for i in range(2)]
     return t
 
@@ -174,6 +175,26 @@ def case_pair(case):
         inv = 1 / v
         expect(layer, ty, inv, m_pow(mv, Fraction(-1)), f"rdiv({mv})", names)
     else:
+        # a unit-less ParserHelper with a scale (what parsing '3' or '2 a / a' gives) as right operand: the scale is multiplied into a new
+        # object, the left operand (possibly a memoised from_string result) keeps its own scale
+        from pint.util import ParserHelper
+
+        for k_txt, kval in (("3", 3), ("4", 4)):
+            kk = ParserHelper(kval if ty == "float" else NIT[ty](k_txt), {}, non_int_type=NIT[ty])
+            s0 = u.scale
+            for tag, got, want_scale in (("ph*scalar", u * kk, s0 * kval), ("ph/scalar", u / kk, Fraction(s0) / kval if ty != "float" else s0 / kval)):
+                if observe(layer, got)[0] != {k: Fraction(e) for k, e in mu.items()}:
+                    raise Violation(f"wrong_exponents:{tag}:ParserHelper", f"{tag}({mu}): got {observe(layer, got)[0]}")
+                if got is u or u.scale != s0:
+                    raise Violation(f"operand_mutated:ParserHelper:{tag}", f"{tag} on {mu}: the left operand's scale went from {s0!r} to {u.scale!r} (result is the operand itself: {got is u})")
+                if abs(float(got.scale) - float(want_scale)) > 1e-12 * abs(float(want_scale)):
+                    raise Violation(f"wrong_scale:{tag}", f"{tag} on {mu}: scale {got.scale!r}, expected {want_scale!r}")
+        first = ParserHelper.from_string("aa / bb")
+        _ = first * ParserHelper(2, {})
+        _ = first / ParserHelper(5, {})
+        again = ParserHelper.from_string("aa / bb")
+        if again.scale != 1 or dict(again.items()) != {"aa": 1, "bb": -1}:
+            raise Violation("from_string_result_changed_by_later_arithmetic", f"ParserHelper.from_string('aa / bb') -> scale {again.scale!r}, {dict(again.items())}")
         # mixed operands: a ParserHelper combined with a plain UnitsContainer / dict (either side) follows the same group law
         vc = build("UnitsContainer", ty, mv, names)
         vd = dict(vc.items())
@@ -477,11 +498,84 @@ def run_pi(task, tier, seed, col):
     hyp_search(col, strat, chk, max_examples=400 if tier == "quick" else 6000, seed=seed * 7 + task["shard"])
 
 
+# ------------------------------------------------------------------------------------- pickles read by another interpreter run
+
+_XP_WRITE = r"""
+import pickle, sys
+import pint
+from pint.util import UnitsContainer, ParserHelper
+ureg = pint.UnitRegistry()
+objs = {"uc": UnitsContainer({"meter": 1, "second": -2}), "uc_frac": UnitsContainer({"meter": 0.5}), "ph": ParserHelper(1, {"kilogram": 1, "meter": -3}),
+        "unit": ureg.Unit("kilogram * meter / second ** 2"), "quantity": ureg.Quantity(3, "meter / second"), "dim": ureg.Unit("newton").dimensionality}
+for o in objs.values():
+    hash(o)                      # equal objects hash equal: the writer has used them as keys already
+    {o: 1}
+pickle.dump(objs, open(sys.argv[1], "wb"))
+"""
+
+_XP_READ = r"""
+import json, pickle, sys
+import pint
+from pint.util import UnitsContainer, ParserHelper
+ureg = pint.UnitRegistry()
+pint.set_application_registry(ureg)
+objs = pickle.load(open(sys.argv[1], "rb"))
+local = {"uc": UnitsContainer({"meter": 1, "second": -2}), "uc_frac": UnitsContainer({"meter": 0.5}), "ph": ParserHelper(1, {"kilogram": 1, "meter": -3}),
+         "unit": ureg.Unit("kilogram * meter / second ** 2"), "quantity": ureg.Quantity(3, "meter / second"), "dim": ureg.Unit("newton").dimensionality}
+out = {}
+for k, o in objs.items():
+    l = local[k]
+    out[k] = {"eq": bool(o == l), "req": bool(l == o), "hash": hash(o) == hash(l), "in_set": o in {l}, "dict_hit": {l: 1}.get(o) == 1}
+    if k in ("uc", "uc_frac", "dim"):
+        out[k]["mul_identity"] = bool(o * UnitsContainer() == l) and hash(o * UnitsContainer()) == hash(l)
+print(json.dumps(out))
+"""
+
+
+def case_xproc_pickle(case, col=None):
+    """containers, units and quantities pickled by one interpreter and read by another (other hash seed) are equal to, and hash like, the
+    same objects built locally"""
+    import json
+    import os
+    import shutil
+    import subprocess
+    import sys
+    import tempfile
+
+    work = tempfile.mkdtemp(prefix="vf_c04x_")
+    try:
+        if col is not None:
+            col.case(("xp", str(case)), True, sample=case, cls="cross_process_pickle")
+        fn = os.path.join(work, "objs.pickle")
+        p = subprocess.run([sys.executable, "-c", _XP_WRITE, fn], env=dict(os.environ, PYTHONHASHSEED=str(case["writer"])), capture_output=True, text=True, timeout=300)
+        if p.returncode != 0:
+            raise RuntimeError(p.stderr[-500:])
+        for hs in case["readers"]:
+            p = subprocess.run([sys.executable, "-c", _XP_READ, fn], env=dict(os.environ, PYTHONHASHSEED=str(hs)), capture_output=True, text=True, timeout=300)
+            if p.returncode != 0:
+                raise Violation("unpickling_in_another_process_raised", f"reader PYTHONHASHSEED={hs}: {p.stderr[-300:]}")
+            res = json.loads(p.stdout)
+            for k, r in res.items():
+                bad = [n for n, v in r.items() if not v]
+                if bad:
+                    raise Violation(f"unpickled_in_another_process_not_equal:{k}", f"{k} pickled under PYTHONHASHSEED={case['writer']}, read under {hs}: {bad} are False against the same object built locally")
+    finally:
+        shutil.rmtree(work, ignore_errors=True)
+
+
+def run_xproc(task, tier, seed, col):
+    col.run_case(lambda c: case_xproc_pickle(c, col), {"writer": 1 + seed % 3, "readers": [5, 1 + seed % 3]})
+
+
 def run_task(task, tier, seed, col):
+    if task["sub"] == "xproc":
+        return run_xproc(task, tier, seed, col)
     {"containers": run_containers, "random": run_random, "pi": run_pi}[task["sub"]](task, tier, seed, col)
 
 
 def replay(sub, case):
+    if sub == "xproc":
+        return case_xproc_pickle(case)
     if sub == "containers":
         return case_triple(case) if "w" in case and "powers" not in case else case_pair(case)
     if sub == "random":
